@@ -372,6 +372,15 @@ func (l *Lexer) consumeNumber(noPanic bool) {
 		l.Token.Kind = token.TokenFloat
 	}
 
+	if base == 16 && i == 2 {
+		if noPanic {
+			l.Token.Kind = token.TokenBad
+			return
+		}
+
+		l.panicfAtPosition(token.Pos(l.pos-i), token.Pos(l.pos), "hexadecimal literal must have at least one digit")
+	}
+
 	if l.peekOk(0) && char.IsIdentPart(l.peek(0)) {
 		if noPanic {
 			l.Token.Kind = token.TokenBad
